@@ -299,7 +299,9 @@ def model_search(names, tier='quick', deadline_s=240):
     found = {}
     t0 = time.time()
     chk = report.Check('CXX-bounded', tier)
-    cfgs = [(0, 0), (1, 0), (2, 0), (1, 1), (2, 1)]
+    # larger views first: two stored trials with symbolic states subsume most behaviours of the smaller views, and the search
+    # has a time budget
+    cfgs = [(2, 0), (2, 1), (1, 0), (1, 1), (0, 0)]
     for nt, no in cfgs:
         if time.time() - t0 > deadline_s or all(n in found for n in names):
             break
